@@ -83,7 +83,7 @@ func (p *Process) Finalize(resp *http.Response) ([]byte, error) {
 		Logs:          p.Logs,
 		Restarts:      p.Restarts,
 		Backend:       backend,
-		Cached:        false,
+		Cached:        p.Cached,
 		ElapsedTimeUs: time.Now().UnixMicro() - p.StartTime,
 		ElapsedTimeMs: time.Now().UnixMilli() - (p.StartTime / 1000),
 		Error:         errMsg,
